@@ -5,6 +5,7 @@ import Mathlib.Tactic.NormNum
 import Mathlib.Tactic.NormNum.OfScientific
 import Mathlib.Tactic.FieldSimp
 import Mathlib.Tactic.Linarith
+import Mathlib.Tactic.LinearCombination
 import Mathlib.Tactic.Positivity
 import Mathlib.Tactic.IntervalCases
 import Mathlib.Algebra.BigOperators.Ring.Finset
